@@ -218,15 +218,23 @@ where
 
     fn next(&mut self) -> Option<Self::Item> {
         if !self.c.next_called {
-            if let Bound::Included(s) = self.bounds.start_bound() {
+            let start = match self.bounds.start_bound() {
+                Bound::Included(s) => Some((s, false)),
+                Bound::Excluded(s) => Some((s, true)),
+                Bound::Unbounded => None,
+            };
+            if let Some((s, excluded)) = start {
                 let exists = self.c.seek(*s);
-                // if the start key is not there,
-                // skip to the key after where it should be.
-                if !exists {
-                    if let Some(data) = self.c.current() {
-                        if data.key() < *s {
-                            self.c.next();
-                        }
+                if exists {
+                    // an excluded start key is not part of the range
+                    if excluded {
+                        self.c.next();
+                    }
+                } else if let Some(data) = self.c.current() {
+                    // if the start key is not there,
+                    // skip to the key after where it should be.
+                    if data.key() < *s {
+                        self.c.next();
                     }
                 }
             }
